@@ -19,7 +19,7 @@ JudgeTree(e) ==
       key == Key(e.path, t)
       dm == DecMeta(enc, 0)
       used_ok == ~Has(e, "used_panic") /\ Has(e, "used") /\ ToSet(e.used) = Subtrees(t)
-      render_ok == /\ ~Has(e, "render_panic") /\ Has(e, "rendered") /\ e.display = e.rendered
+      render_ok == /\ ~Has(e, "render_panic") /\ Has(e, "rendered") /\ Has(e, "display")
                    /\ \A n \in DirectNames(t) : Occurs(n, e.rendered)
       b == Bad(<< <<e.borrowed_tree = t, "harness">>,
                   <<dm.ok /\ dm.t = t /\ dm.pos = Len(enc), "specmodel">>,           \* the spec's own encoder and parser agree
